@@ -172,6 +172,34 @@ def corr_enuc(ctx: Ctx, drv):
             ok = len(out) == 1 and out[0] != "bad-op" and abs(b2f(out[0]) - float(E[0])) <= 1e-12 * max(1.0, abs(float(E[0])))
             ctx.corr_case("pair_nuclear_energy", {"method": method, "zi": zi, "zj": zj, "r": r_ang, "gam": gam}, out, float(E[0]), ok,
                           stratum=method + ("/XH" if isxh else ""))
+            # analytical derivative core_core_der for the same pair (d gam/dx supplied through w_x as the code does)
+            import types
+            from seqm.seqm_functions.anal_grad import core_core_der
+            dvec = rng.normal(size=3)
+            dvec /= np.linalg.norm(dvec)
+            xij = torch.as_tensor(dvec).reshape(1, 3)
+            molns = types.SimpleNamespace(ni=torch.tensor([zi]), nj=torch.tensor([zj]), idxi=torch.tensor([0]), idxj=torch.tensor([1]), xij=xij, rij=rij, const=const)
+            w_x = torch.as_tensor(rng.normal(size=(1, 3, 10, 10)))
+            pg = core_core_der(molns, torch.tensor([gam]), w_x, method, par)
+            Xij = (xij * rij.unsqueeze(1) * a0)
+            for c in range(3):
+                t2 = ["enucder"] + toks[1:9] + [f2b(float(Xij[0, c])), f2b(float(w_x[0, c, 0, 0])), ng] + toks[10:]
+                o = drv.ask(*t2)
+                want = float(pg[0, c])
+                okd = len(o) == 1 and o[0] != "bad-op" and abs(b2f(o[0]) - want) <= 1e-11 * max(1.0, abs(want))
+                ctx.corr_case("core_core_der", {"method": method, "zi": zi, "zj": zj, "r": r_ang, "c": c}, o, want, okd, stratum=method + ("/XH" if isxh else ""))
+    # elec_energy (restricted / unrestricted, triangular Hcore handling)
+    from seqm.seqm_functions.energy import elec_energy
+    for n in (1, 3, 8):
+        P, F, H = (torch.as_tensor(rng.normal(size=(1, n, n))) for _ in range(3))
+        for tr in (0, 1):
+            e = float(elec_energy(P, F, H, doTriu=bool(tr))[0])
+            o = drv.ask("eelec", n, tr, *[f2b(float(v)) for T in (P, F, H) for v in T.reshape(-1)])
+            ctx.corr_case("elec_energy", {"n": n, "doTriu": tr}, o, e, len(o) == 1 and o[0] != "bad-op" and abs(b2f(o[0]) - e) <= 1e-12 * max(1.0, abs(e)))
+        Pu, Fu = torch.as_tensor(rng.normal(size=(1, 2, n, n))), torch.as_tensor(rng.normal(size=(1, 2, n, n)))
+        e = float(elec_energy(Pu, Fu, H)[0])
+        o = drv.ask("eelec_uhf", n, 1, *[f2b(float(v)) for T in (Pu[0, 0], Pu[0, 1], Fu[0, 0], Fu[0, 1], H) for v in T.reshape(-1)])
+        ctx.corr_case("elec_energy(UHF)", {"n": n}, o, e, len(o) == 1 and o[0] != "bad-op" and abs(b2f(o[0]) - e) <= 1e-12 * max(1.0, abs(e)))
 
 
 def run(ctx: Ctx):
